@@ -68,7 +68,9 @@ def judge(case):
     n = case["n"]
     msgs = []
     # one model object and one pair of input matrices, used for a whole history of calls (as a caller would)
-    S_in, H_in, V_in, E_in = to_form(S, forms[0]), to_form(H, forms[1]), V.copy(), E.copy()
+    # V and E as the caller stores them: float64, or integer-valued arrays of an integer dtype
+    S_in, H_in = to_form(S, forms[0]), to_form(H, forms[1])
+    V_in, E_in = V.astype(case.get("vdtype", "float64")), E.astype(case.get("edtype", "float64"))
     try:
         with quiet():
             model = SQRA(energies=E_in, volumes=V_in, distances=H_in, surfaces=S_in)
@@ -126,7 +128,9 @@ def judge(case):
         msgs.append(f"not invariant under E+{c}: [{i},{j}] {Q[i, j]!r} -> {Qc[i, j]!r}")
     # the caller's inputs are still what was passed in
     if not (np.array_equal(np.asarray(S_in.toarray()), S) and np.array_equal(np.asarray(H_in.toarray()), H)
-            and np.array_equal(V_in, V) and np.array_equal(E_in, E)):
+            and np.array_equal(V_in, V) and np.array_equal(E_in, E)
+            and V_in.dtype == np.dtype(case.get("vdtype", "float64"))
+            and E_in.dtype == np.dtype(case.get("edtype", "float64"))):
         msgs.append("get_rate_matrix modified its input matrices / arrays")
     # (f) storage-form independence
     for other in (["csr", "csr"], ["coo", "coo"], ["coo+coo", "coo+coo"]):
@@ -145,6 +149,10 @@ def describe(case):
     pattern = S != 0
     dE = E[:, None] - E[None, :]
     classes = ["forms=" + "/".join(case["forms"])]
+    if case.get("vdtype", "float64") != "float64":
+        classes.append("integer_volumes")
+    if case.get("edtype", "float64") != "float64":
+        classes.append("integer_energies")
     if (pattern & (np.abs(dE) >= CAP)).any():
         classes.append("has_capped_pair")
     deg = pattern.sum(axis=1)
@@ -217,6 +225,13 @@ def _hyp_shard(arg):
                 if draw(st.booleans()):
                     i, j = j, i
                 E[i] = E[j] + gap
+        # callers also hold cell volumes / energies as integer-valued arrays of an integer dtype
+        vdtype = draw(st.sampled_from(["float64"] * 5 + ["int64", "int32"]))
+        edtype = draw(st.sampled_from(["float64"] * 6 + ["int64"]))
+        if vdtype != "float64":
+            V = [float(v) for v in draw(st.lists(st.integers(1, 60), min_size=n, max_size=n))]
+        if edtype != "float64":
+            E = [float(np.round(e)) for e in E]
         T = draw(logu(1.0, 2000.0))
         # keep the (capped) exponent inside the float64 range: the property does not claim finite results beyond it
         Earr = np.array(E)
@@ -228,7 +243,7 @@ def _hyp_shard(arg):
         forms = draw(st.sampled_from([["csr", "csr"], ["coo+coo", "coo+coo"], ["coo", "coo"], ["csr", "coo"],
                                       ["coo", "coo+coo"]]))
         return {"n": n, "pairs": [list(p) for p in pairs], "S": S, "h": h, "V": V, "E": [float(x) for x in E], "T": T,
-                "D": D, "forms": forms, "shift": draw(st.floats(-1e4, 1e4)), "dscale": draw(logu(1e-3, 1e3))}
+                "D": D, "forms": forms, "vdtype": vdtype, "edtype": edtype, "shift": draw(st.floats(-1e4, 1e4)), "dscale": draw(logu(1e-3, 1e3))}
 
     def builder(res, fail):
         @given(cases())
@@ -255,7 +270,8 @@ def run(tier):
     rule = ("Hypothesis: n in 2..14, symmetric patterns (random density / path / star / two components / empty), S,h,V "
             "log-uniform in [1e-3,1e3], energies equal / sigma-small / large / with a forced adjacent pair at or beyond the "
             "500 kJ/mol cap, T in [1,2000] K raised only as far as needed to keep the capped exponent < 600, D in [1e-6,1e3], "
-            "storage csr / coo+coo / row-major coo / mixed. Non-trivial = at least one edge and not all energies equal; "
+            "storage csr / coo+coo / row-major coo / mixed, V and E as float64 or as integer-valued arrays of an integer "
+            "dtype. Non-trivial = at least one edge and not all energies equal; "
             "distinct = distinct full input.")
     return res, rule, {"assumptions": ["S and h share one pattern with empty diagonal and no explicitly stored zeros",
                                        "T large enough that exp(min(dE,500)/(2RT)) is finite in float64"]}
